@@ -354,3 +354,27 @@ Proof.
   - intros Hin _. apply in_map_iff in Hin as (i & <- & Hi). rewrite <- E in Hi.
     apply matching_ingresses_spec in Hi as (H1 & H2 & H3). exists i. repeat split; auto.
 Qed.
+
+(** C09: the PKCE verifier never travels in clear: the front channel carries only its S256 image *)
+Lemma opt_param_values n v k x : In (k, x) (opt_param n v) -> exists s, x = VStr s.
+Proof. unfold opt_param. destruct v; cbn; [contradiction|]. intros [[= _ <-]|[]]. eauto. Qed.
+
+Lemma auth_params_values c q i rnd k x :
+  In (k, x) (auth_params c q i rnd) -> (exists s, x = VStr s) \/ x = VS256 (rnd + 2) \/ x = VRnd rnd \/ x = VRnd (rnd + 1).
+Proof.
+  unfold auth_params. intros H. repeat (apply in_app_or in H as [H|H]).
+  - cbn in H. repeat (destruct H as [H|H]; [inversion H; subst; eauto 6|]). contradiction.
+  - left. eapply opt_param_values; eauto.
+  - left. eapply opt_param_values; eauto.
+  - destruct (prompt_param c q); cbn in H; [contradiction|]. repeat (destruct H as [H|H]; [inversion H; subst; eauto|]). contradiction.
+  - left. eapply opt_param_values; eauto.
+Qed.
+
+Theorem verifier_not_in_front_channel c q rnd ref par i k x :
+  par <> VRnd (rnd + 2) ->
+  In (k, x) (lo_browser (login_with c q rnd ref par i)) -> x <> VRnd (rnd + 2).
+Proof.
+  intros Hp. unfold login_with. destruct (a_par c); cbn [lo_browser].
+  - intros [H|[H|[]]]; inversion H; subst; [discriminate|exact Hp].
+  - intros H. apply auth_params_values in H as [(s & Hx)|[Hx|[Hx|Hx]]]; subst x; try discriminate; intros E; inversion E; lia.
+Qed.
